@@ -103,15 +103,27 @@ def sizing_histories(opts, gran, bs):
             sizes += [k * bs - 2 * gran, k * bs - 4 * gran]
     for k in (2, 4):
         sizes += [k * bs - gran, k * bs + 1]
-    if opts & OPT_LARGE:   # blocks of at least the large-page size (2 MiB): the large-page attempt and its fallback to regular pages
-        sizes += [2 ** 21, 2 ** 21 - pad, 2 ** 22 + 1]
     prefixes = [[], ["alloc 1"], ["alloc 1", "alloc %d" % (2 * bs)], ["alloc 1", "release 0"], ["alloc %d" % bs, "reset hard"]]
     for pre in prefixes:
         h = sum(1 for l in pre if l.startswith("alloc"))
         for sz in sizes:
+            # per-granule observers (sweep / mem) only on the smaller blocks: they cost O(block) in the harness
+            obs = ["sweep", "mem"] if sz <= 2 * bs else ["dump"]
             yield ([cfg_line(opts, gran, bs, 0x90909090), "isinit"] + pre +
-                   ["alloc %d" % sz, "write %d 41" % h, "query %d %d" % (h, sz - 1), "dump", "sweep", "read %d" % h,
-                    "alloc %d" % gran, "release %d" % h, "blocks", "alloc %d" % sz, "dump", "sweep", "mem", "blocks"])
+                   ["alloc %d" % sz, "write %d 41" % h, "query %d %d" % (h, sz - 1), "dump", obs[0], "read %d" % h,
+                    "alloc %d" % gran, "release %d" % h, "blocks", "alloc %d" % sz, "dump"] + obs + ["blocks"])
+
+
+def large_page_histories(opts, gran):
+    """kUseLargePages (+ kAlignBlockSizeToLargePage): blocks of at least the large-page size (2 MiB) and, with the align option, every
+    block take the large-page attempt of JitAllocator_new_block; the sandbox grants none, so the fallback to regular pages is what runs."""
+    pad = 0 if opts & OPT_NOPAD else gran
+    for pre in ([], ["alloc 1"]):
+        h = len(pre)
+        for sz in (2 ** 21, 2 ** 21 - pad, 2 ** 22 + 1):
+            yield ([cfg_line(opts, gran, 65536, 0x90909090), "isinit"] + pre +
+                   ["alloc %d" % sz, "query %d %d" % (h, sz - 1), "blocks", "dump", "alloc %d" % gran, "shrink %d %d" % (h, 2 ** 20), "dump",
+                    "release %d" % h, "blocks", "alloc %d" % sz, "blocks", "dump", "reset soft", "blocks"])
 
 
 HUGE = [2 ** 31, 2 ** 32, 2 ** 32 + 1, 2 ** 63, 2 ** 64 - 1, 2 ** 64 - 63, 2 ** 64 - 64]
@@ -380,7 +392,8 @@ def run_batch(runner, hists, with_model=True):
             impl_all += impl
             lines_all += flat
             break
-        # the history in progress when the harness died
+        # the history in progress when the harness died (its last answer line may be cut off: never judge it)
+        impl = impl[:-1]
         k = owner[len(impl)] if len(impl) < len(owner) else len(pending) - 1
         done = sum(len(h) for h in pending[:k])
         impl_all += impl[:done]
@@ -449,10 +462,16 @@ def build_histories(res, rng):
     if quick:
         splan = [(o, g, 65536) for o in QUICK_OPTS for g in (64, 128, 256)] + [(0, 64, 131072), (OPT_MULTI | OPT_FILL, 256, 131072)]
     else:
-        splan = [(o, g, b) for o in range(64) for g in (64, 128, 256) for b in (65536, 131072)] + \
+        splan = [(o, g, 65536) for o in range(64) for g in (64, 128, 256)] + [(o, g, 131072) for o in QUICK_OPTS for g in (64, 256)] + \
                 [(o | OPT_ALIGNLP, 64, 65536) for o in range(64) if o & OPT_LARGE]
     for o, g, b in splan:
         for hst in sizing_histories(o, g, b):
+            hists.append(hst)
+            nsz += 1
+    # directed: the large-page attempt and its fallback
+    for o in ([OPT_LARGE, OPT_LARGE | OPT_ALIGNLP | OPT_FILL, OPT_LARGE | OPT_ALIGNLP | OPT_MULTI | OPT_NOPAD, OPT_DUAL | OPT_LARGE | OPT_ALIGNLP] if quick else
+              [x | a for x in range(64) if x & OPT_LARGE for a in (0, OPT_ALIGNLP)]):
+        for hst in large_page_histories(o, 64 if quick else [64, 128, 256][o % 3]):
             hists.append(hst)
             nsz += 1
     # directed: narrowing points of the 32/64-bit arithmetic
